@@ -91,6 +91,12 @@ func c10Run(line string) string {
 
 var _ = identity.AgentID{}
 
+// c10Pre is the metric an advertisement must carry for the Manager (which adds 1 in uint16) to store
+// the metric the original script meant - this keeps the metrics of the big-slice streams pairwise distinct.
+func c10Pre(metric string) string {
+	return fmt.Sprintf("%d", (c08U(metric)+65535)%65536)
+}
+
 // ---------------------------------------------------------------- generator
 
 // c10Rewrite turns a c08 / c09 case into c10 ops: CIDR ops get the `c` prefix; a share of the adds
@@ -111,7 +117,7 @@ func c10Rewrite(w *bufio.Writer, r *rng, script []byte, cidr bool) {
 				if f[5] == "1" && r.chance(50) {
 					fmt.Fprintf(w, "mlocal %s %s %s %s\n", f[1], f[2], f[3], f[6])
 				} else {
-					fmt.Fprintf(w, "madv %s %s %s %s %s %s %s %s\n", f[4], f[5], f[7], f[8], f[1], f[2], f[3], f[6])
+					fmt.Fprintf(w, "madv %s %s %s %s %s %s %s %s\n", f[4], f[5], f[7], f[8], f[1], f[2], f[3], c10Pre(f[6]))
 				}
 			case "rm":
 				if f[4] == "1" {
@@ -132,9 +138,9 @@ func c10Rewrite(w *bufio.Writer, r *rng, script []byte, cidr bool) {
 			// dadv pattern nh or metric seq path  -> mdadv from origin seq path pattern metric
 			switch {
 			case f[0] == "dadv" && r.chance(40):
-				fmt.Fprintf(w, "mdadv %s %s %s %s %s %s\n", f[2], f[3], f[5], f[6], f[1], f[4])
+				fmt.Fprintf(w, "mdadv %s %s %s %s %s %s\n", f[2], f[3], f[5], f[6], f[1], c10Pre(f[4]))
 			case f[0] == "fadd" && r.chance(40): // fadd key target nh or metric seq path
-				fmt.Fprintf(w, "mfadv %s %s %s %s %s %s %s\n", f[3], f[4], f[6], f[7], f[1], f[2], f[5])
+				fmt.Fprintf(w, "mfadv %s %s %s %s %s %s %s\n", f[3], f[4], f[6], f[7], f[1], f[2], c10Pre(f[5]))
 			case f[0] == "aadd" && r.chance(40): // aadd agent nh or metric seq path
 				fmt.Fprintf(w, "maadv %s %s %s %s %s %s\n", f[2], f[3], f[5], f[6], f[1], f[4])
 			default:
@@ -145,7 +151,7 @@ func c10Rewrite(w *bufio.Writer, r *rng, script []byte, cidr bool) {
 }
 
 func c10Gen(w *bufio.Writer, seed int64, tier string) {
-	r := newRng(seed)
+	r := newRng(c08Mix(seed ^ 0x10))
 	cases, nops := 150, 45
 	if tier == "thorough" {
 		cases, nops = 4000, 60
@@ -163,7 +169,7 @@ func c10Gen(w *bufio.Writer, seed int64, tier string) {
 		c10Rewrite(w, r, buf.Bytes(), cidr)
 	}
 	// long histories and big slices / tables, through the same rewriting
-	extra := 1
+	extra := 2
 	if tier == "thorough" {
 		extra = 8
 	}
